@@ -98,7 +98,9 @@ func (b *builder) genConfigs() {
 	if p.NCfg > 0 {
 		n = 1 + r.Intn(p.NCfg)
 	}
-	dirs := []string{"__snapshots__", "snaps_dir", "nested/deep/__snapshots__", "/abs/snapdir", "../up/__snapshots__", ".snapshots", "__snaps[v2]__"}
+	// (the last three are other spellings of directories already in the list)
+	dirs := []string{"__snapshots__", "snaps_dir", "nested/deep/__snapshots__", "/abs/snapdir", "../up/__snapshots__", ".snapshots", "__snaps[v2]__",
+		"./__snapshots__", "nested/../snaps_dir", scen.NominalDir + "/__snapshots__"}
 	names := []string{"shared", "custom_name", "zz_world_a_test", "my.snap.file", "data"}
 	exts := []string{".txt", ".json", ".snap", ".yaml", ""}
 	for i := 0; i < n; i++ {
@@ -324,8 +326,10 @@ func (b *builder) mutateCall(c *scen.Call) {
 	case scen.APISnapshot, scen.APISSnap:
 		i := r.Intn(len(c.Values))
 		v := c.Values[i]
-		if v.K == "s" {
-			c.Values[i] = scen.Str(mutateString(r, string(v.S), p.Avoid, multi))
+		if v.K == "s" || v.K == "ds" {
+			nv := scen.Str(mutateString(r, string(v.S), p.Avoid, multi))
+			nv.K = v.K
+			c.Values[i] = nv
 		} else {
 			old, _ := json.Marshal(v)
 			for k := 0; k < 10; k++ {
@@ -574,6 +578,22 @@ func (b *builder) runPattern(prog []*scen.TestNode) string {
 		return ""
 	}
 	t := tops[r.Intn(len(tops))]
+	// a top-level test that has sub-tests (for patterns that select a test but none of its sub-tests)
+	parent := func() string {
+		var ps []string
+		for _, n := range prog {
+			for i := range n.Steps {
+				if n.Steps[i].Kind == "sub" {
+					ps = append(ps, n.Name)
+					break
+				}
+			}
+		}
+		if len(ps) == 0 {
+			return t
+		}
+		return ps[r.Intn(len(ps))]
+	}
 	safe := []func() string{
 		func() string { return "^" + t + "$" },
 		func() string { return t },
@@ -584,6 +604,11 @@ func (b *builder) runPattern(prog []*scen.TestNode) string {
 		},
 		func() string { return "Test[A-B]" },
 		func() string { return "^Test" },
+		// the test itself is selected, none of its sub-tests is: its body runs, no leaf test
+		// "ran" - and with -count=n the go runner then performs a single iteration
+		func() string { return "^" + parent() + "$/^nomatch$" },
+		func() string { return parent() + "/typo" },
+		func() string { return "^" + parent() + "$/^nomatch$" },
 	}
 	risky := []func() string{
 		func() string {
